@@ -137,7 +137,8 @@ func script(kind string) *lab.RespScript {
 func runWorkload(t *testing.T, c wcfg, overlap *[lenKinds]int64) string {
 	l, err := lab.NewSocketLab(c.Strategy, lab.SocketOpts{Backends: 3, Mutate: func(cfg *config.Config) {
 		if c.Breaker {
-			cfg.CircuitBreaker = config.CircuitBreakerConfig{Enabled: true, FailureThreshold: 3, SuccessThreshold: 1, MaxRequests: 2, IntervalSeconds: 60, TimeoutSeconds: 1}
+			// thresholds vary with the workload: 1-3 successes needed to close, 2-4 trial requests admitted at a time (so trials overlap)
+			cfg.CircuitBreaker = config.CircuitBreakerConfig{Enabled: true, FailureThreshold: 1 + int(c.Seed/3%3), SuccessThreshold: 1 + int(c.Seed%3), MaxRequests: 2 + int(c.Seed%3), IntervalSeconds: 60, TimeoutSeconds: 1}
 			if c.Quiet {
 				// the counting window is shorter than the quiet period; in half of these workloads the threshold is out of
 				// reach, so that the breaker is still CLOSED with failures on record when the traffic resumes
